@@ -8,7 +8,7 @@
 from collections import defaultdict, ChainMap
 
 from loki.ir import (
-    Import, Comment, VariableDeclaration, CallStatement, Transformer,
+    Import, Comment, VariableDeclaration, CallStatement, Conditional, Transformer,
     FindNodes, FindVariables, FindInlineCalls, SubstituteExpressions,
     pragmas_attached, is_loki_pragma, Interface, Pragma, AttachScopes
 )
@@ -284,6 +284,11 @@ def inline_subroutine_calls(routine, calls, callee, allowed_aliases=None):
     call_map = {
         call: map_call_to_procedure_body(call, caller=routine) for call in calls
     }
+
+    # A one-line IF statement cannot hold the inlined body: turn it into an IF construct
+    for cond in FindNodes(Conditional).visit(routine.body):
+        if cond.inline and any(call in call_map for call in FindNodes(CallStatement).visit(cond.body)):
+            cond._update(inline=False)
 
     # Replace calls to child procedure with the child's body
     routine.body = Transformer(call_map).visit(routine.body)
